@@ -26,8 +26,8 @@ INSTANCES = {
     "quote": ['a"b', '"', 'say "hi"'],
     "backslash": ["a\\b", "\\", "c:\\dir"],
     "bsquote": ['a\\"b', '\\"'],
-    "newline": ["a\nb", "\n", "line1\r\nline2"],
-    "tab": ["a\tb", "\t"],
+    "newline": ["a\nb", "\n", "line1\r\nline2", "bar()\n", "\nx", "a\n\n"],
+    "tab": ["a\tb", "\t", "x\t"],
     "ctrl": ["a\x01b", "\x7f\x1f", "\x00z"],
     "nonascii": ["na\u00efve", "\u00e9", "\u540d\u524d"],
     "astral": ["f\U0001f600", "\U0001d54f"],
@@ -189,7 +189,9 @@ def run(tier: str) -> int:
     if m.violated:
         raise MachineryError(f"ReportDoc.tla: {m.violated}")
     chunks = dump_chunks(m.dump)
-    jobs = [(c, k) for c in chunks for k in range(b["inst"])]
+    # the instantiation index rotates with the state index, so that every concrete representative of a class is
+    # used even with one instantiation per report value
+    jobs = [(c, n * 7 + k) for n, c in enumerate(chunks) for k in range(b["inst"])]
     res = pmap(observe, jobs, timeout=60, chunk=256)
     events = []
     for j, r in zip(jobs, res):
